@@ -4,7 +4,8 @@
    packer/indexer pipeline of blob/packer.rs + index/indexer.rs; Extracted.v (regenerated from
    the source on every run) says whether Indexer.indexed is typed. *)
 From Verif.Base Require Import Tactics.
-From Verif.C01 Require Import Model Extracted ProofsNames ProofsRead ProofsPipe ProofsCode.
+From Verif.C06 Require Model.
+From Verif.C01 Require Import Model ModelTree Extracted ProofsNames ProofsRead ProofsPipe ProofsTree ProofsTreeBS ProofsTime ProofsFile ProofsCode.
 Local Open Scope N_scope.
 
 (* names: unescaping the escaped name gives back the name, for every byte string *)
@@ -82,3 +83,150 @@ Print Assumptions roundtrip_collision_refuted.
 Theorem indexed_packs_written : forall typed evs, incl (idx (run typed evs)) (written (run typed evs)).
 Proof. exact indexed_packs_written_lemma. Qed.
 Print Assumptions indexed_packs_written.
+
+(* ------------------------------------------------------------------ path lookup (blob/tree.rs)
+
+   Trees are node lists with the names stored ESCAPED (names_escaped), strictly sorted by the
+   UNESCAPED name (sorted_by_raw; hence pairwise different) — what backup writes.  For every repository of such trees and every (path, node) the listing
+   (NodeStreamer, `ls`) yields, Tree::node_from_path on that path returns exactly that node — with
+   the comparison and search strategy the source uses now (the Extracted.lookup flags). *)
+Theorem node_from_path_finds_listed : forall R fuel root path n, wf_repo_sorted R ->
+  In (path, n) (ls fuel R root) ->
+  node_from_path lookup_binary_search lookup_compares_stored R root path = Some n.
+Proof. exact node_from_path_finds_listed_lemma. Qed.
+Print Assumptions node_from_path_finds_listed.
+
+Theorem find_nodes_from_path_finds_listed : forall R fuel root path n, wf_repo_sorted R ->
+  In (path, n) (ls fuel R root) ->
+  node_from_path find_nodes_binary_search find_nodes_compares_stored R root path = Some n.
+Proof. exact find_nodes_finds_listed_lemma. Qed.
+Print Assumptions find_nodes_from_path_finds_listed.
+
+(* every way of looking a component up except a binary search on the stored name is correct:
+   scan on node.name(), scan on the stored name against escape_filename(component), binary search
+   on node.name() *)
+Theorem node_from_path_variants : forall bsearch stored, negb (bsearch && stored) = true ->
+  forall R fuel root path n, wf_repo_sorted R ->
+  In (path, n) (ls fuel R root) -> node_from_path bsearch stored R root path = Some n.
+Proof. exact node_from_path_finds_listed_gen2. Qed.
+Print Assumptions node_from_path_variants.
+
+(* the hypotheses are what backup produces: a tree made with Node::new_node (stored name =
+   escape_filename(name)) from entries sorted by name is sorted_by_raw and names_escaped ... *)
+Theorem backup_tree_is_wellformed : forall entries, entries_ok entries ->
+  sorted_by_raw (backup_tree entries) /\ names_escaped (backup_tree entries).
+Proof. exact backup_tree_wf. Qed.
+Print Assumptions backup_tree_is_wellformed.
+
+(* ... and every source entry is listed under its own (raw) name and found under that name *)
+Theorem backup_names_listed_and_found : forall R fuel root entries e,
+  wf_repo_sorted R -> R root = Some (backup_tree entries) -> entries_ok entries -> In e entries ->
+  In ([entry_name e], mk_node e) (ls (S fuel) R root) /\
+  forall bsearch stored, negb (bsearch && stored) = true ->
+    node_from_path bsearch stored R root [entry_name e] = Some (mk_node e).
+Proof. exact ProofsTreeBS.backup_names_listed_and_found. Qed.
+Print Assumptions backup_names_listed_and_found.
+
+(* for a repository all of whose trees were written by backup nothing else has to be assumed:
+   the listing shows nodes made from source entries under their raw names, and finds them *)
+Theorem backup_repo_lookup : forall bsearch stored, negb (bsearch && stored) = true ->
+  forall R fuel root path n, written_by_backup R ->
+  In (path, n) (ls fuel R root) -> node_from_path bsearch stored R root path = Some n.
+Proof. exact ProofsTreeBS.backup_repo_lookup. Qed.
+Print Assumptions backup_repo_lookup.
+
+Theorem backup_repo_listing : forall fuel R nodes prefix path n, written_by_backup R ->
+  (exists entries, entries_ok entries /\ nodes = backup_tree entries) ->
+  In (path, n) (ls_nodes fuel R nodes prefix) ->
+  exists e pre, n = mk_node e /\ bytes_ok (entry_name e) /\ path = pre ++ [entry_name e].
+Proof. exact ProofsTreeBS.backup_repo_listing. Qed.
+Print Assumptions backup_repo_listing.
+
+(* the scan comparing node.name() needs nothing but distinct names (no assumption on how the
+   names are stored: also names that fail to unescape are found under their fallback) *)
+Theorem node_from_path_scan_finds_listed : forall R fuel root path n, wf_repo R ->
+  In (path, n) (ls fuel R root) -> node_from_path false false R root path = Some n.
+Proof. exact node_from_path_finds_listed_scan. Qed.
+Print Assumptions node_from_path_scan_finds_listed.
+
+(* a binary search on the ESCAPED names over trees sorted by RAW name loses listed entries *)
+Theorem node_from_path_bsearch_stored_refuted :
+  exists R root path n, wf_repo_escaped R /\
+    (forall id nodes, R id = Some nodes -> StronglySorted (fun a b => bytes_cmp (raw_name a) (raw_name b) = Lt) nodes) /\
+    In (path, n) (ls 3 R root) /\ node_from_path true true R root path = None.
+Proof. exact node_from_path_bsearch_stored_refuted_lemma. Qed.
+Print Assumptions node_from_path_bsearch_stored_refuted.
+
+(* ------------------------------------------------------------------ modification times
+
+   capture = mapper.rs (stat timespec -> SystemTime -> jiff Timestamp, negative instants carry the
+   sign in BOTH fields), restore_time = LocalDestination::set_times (Timestamp -> SystemTime ->
+   FileTime: floored seconds, non-negative nanoseconds).  For every timespec in jiff's range,
+   before and after the epoch, the restored timespec is the captured one. *)
+Theorem mtime_roundtrip : forall s n, (0 <= n < NS)%Z -> (JIFF_MIN <= s)%Z -> (s <= JIFF_MAX)%Z ->
+  exists j, capture (s, n) = Some j /\ restore_time restore_time_direct j = (s, n).
+Proof. exact mtime_roundtrip_current_code_lemma. Qed.
+Print Assumptions mtime_roundtrip.
+
+Theorem capture_keeps_instant : forall t j, timespec_ok t -> capture t = Some j ->
+  (fst j * NS + snd j = fst t * NS + snd t)%Z.
+Proof. exact capture_instant. Qed.
+Print Assumptions capture_keeps_instant.
+
+(* FileTime::from_unix_time(as_second, |subsec_nanosecond|) is wrong before the epoch *)
+Theorem mtime_roundtrip_direct_refuted :
+  exists s n j, (0 <= n < NS)%Z /\ capture (s, n) = Some j /\ restore_time true j <> (s, n).
+Proof. exact mtime_roundtrip_direct_refuted_lemma. Qed.
+Print Assumptions mtime_roundtrip_direct_refuted.
+
+(* ------------------------------------------------------------------ file content, source to read-back
+
+   C06's chunker model (Verif.C06.Model.chunks_impl / fixed_impl: every read schedule with short
+   reads and Interrupted, every size hint, both arithmetic modes) composed with dump / read_at:
+   for every ACCEPTED chunker configuration the chunk list a file is stored as reads back as the
+   file's bytes. *)
+Theorem file_content_roundtrip : forall md P avg mn mx hint src sched,
+  Verif.C06.Model.rabin_accepts avg mn mx = true ->
+  exists cs, Verif.C06.Model.chunks_impl md (Verif.C06.Model.Build_cparams P avg mn mx) hint src sched = Verif.C06.Model.Ok cs /\
+    dump cs = src /\
+    (blen src < USIZE_MAX -> forall off len, off <= USIZE_MAX ->
+       read_at cs off len = firstn (N.to_nat len) (skipn (N.to_nat off) src)).
+Proof. exact file_content_roundtrip_rabin_lemma. Qed.
+Print Assumptions file_content_roundtrip.
+
+Theorem file_content_roundtrip_fixed : forall size hint src sched,
+  Verif.C06.Model.fixed_accepts size = true ->
+  exists cs, Verif.C06.Model.fixed_impl size hint src sched = Some cs /\
+    dump cs = src /\
+    (blen src < USIZE_MAX -> forall off len, off <= USIZE_MAX ->
+       read_at cs off len = firstn (N.to_nat len) (skipn (N.to_nat off) src)).
+Proof. exact file_content_roundtrip_fixed_lemma. Qed.
+Print Assumptions file_content_roundtrip_fixed.
+
+(* ... and through the data packer / indexer of the run (ids = H chunk for ANY function H such
+   that the blobs of the run are Consistent, i.e. no hash collision among them): when every chunk
+   of the file is handed to the data packer, the node's content list `map H cs` reads back, blob
+   by blob through the typed index, as bytes whose dump / ranged reads are the source bytes. *)
+Theorem backup_file_readback : forall (H : bytes -> N) md P avg mn mx hint src sched evs,
+  Verif.C06.Model.rabin_accepts avg mn mx = true ->
+  Consistent (added evs) -> complete (run indexed_typed evs) = true ->
+  exists cs, Verif.C06.Model.chunks_impl md (Verif.C06.Model.Build_cparams P avg mn mx) hint src sched = Verif.C06.Model.Ok cs /\
+    ((forall c, In c cs -> In (EAdd Data (H c) c) evs) ->
+     exists blobs, read_blobs (run indexed_typed evs) (map H cs) = Some blobs /\
+       dump blobs = src /\
+       (blen src < USIZE_MAX -> forall off len, off <= USIZE_MAX ->
+          read_at blobs off len = firstn (N.to_nat len) (skipn (N.to_nat off) src))).
+Proof. exact backup_file_readback_rabin_lemma. Qed.
+Print Assumptions backup_file_readback.
+
+Theorem backup_file_readback_fixed : forall (H : bytes -> N) size hint src sched evs,
+  Verif.C06.Model.fixed_accepts size = true ->
+  Consistent (added evs) -> complete (run indexed_typed evs) = true ->
+  exists cs, Verif.C06.Model.fixed_impl size hint src sched = Some cs /\
+    ((forall c, In c cs -> In (EAdd Data (H c) c) evs) ->
+     exists blobs, read_blobs (run indexed_typed evs) (map H cs) = Some blobs /\
+       dump blobs = src /\
+       (blen src < USIZE_MAX -> forall off len, off <= USIZE_MAX ->
+          read_at blobs off len = firstn (N.to_nat len) (skipn (N.to_nat off) src))).
+Proof. exact backup_file_readback_fixed_lemma. Qed.
+Print Assumptions backup_file_readback_fixed.
